@@ -29,8 +29,11 @@ package react
 //@   at call sr.Close: ghost closes++
 //@   after call sr.Recv: ghost lastErr = result1
 //@   after call sr.Recv: ghost lastHadCalls = result1 == nil && result0 != nil && len(result0.ToolCalls) > 0
+//@   ghost lastHadContent bool = false
+//@   after call sr.Recv: ghost lastHadContent = result1 == nil && result0 != nil && len(result0.Content) > 0
 //@   ensures[stream_closed_once] @C19 closes == 1
 //@   ensures[decided_by_first_meaningful_chunk] @C18 result1 == nil ==> result0 == lastHadCalls
+//@   ensures[no_verdict_on_an_empty_chunk] @C18 result1 == nil && !result0 ==> lastErr == io.EOF || lastHadContent
 //@   ensures[error_reported] @C18 lastErr != nil && lastErr != io.EOF ==> result1 == lastErr && !result0
 //@   ensures[end_of_stream_means_no_tool_call] @C18 lastErr == io.EOF ==> !result0 && result1 == nil
 //@   after call sr.Recv: assume result1 != nil || result0 != nil
